@@ -36,7 +36,9 @@ RECURSIVE RunLoop(_, _, _, _)
 RunLoop(st, tw, envs, i) ==
   IF ~st.mcr THEN [st |-> [st EXCEPT !.pause = "MCROff"], out |-> "ok", n |-> i - 1]
   ELSE IF ~TripHolds(tw, st, i = 1) THEN [st |-> [st EXCEPT !.pause = "Tripwire"], out |-> "ok", n |-> i - 1]
-  ELSE LET env == envs[i]
+  ELSE LET env == IF i <= Len(envs) THEN envs[i]        \* beyond the recorded polls: stop (reported as "nsteps")
+                  ELSE [lockK |-> FALSE, lockD |-> FALSE, clr |-> TRUE,
+                        ints |-> [j \in 1..8 |-> [k |-> 0, vect |-> 0, prio |-> 0]], draws |-> [j \in 1..8 |-> 1]]
            s0  == IF env.clr THEN [st EXCEPT !.mcr = FALSE] ELSE st
            x   == StepF(s0, env)
        IN IF x.out = "halt" THEN [st |-> [x.st EXCEPT !.pause = "Halt"], out |-> "ok", n |-> i]
